@@ -78,7 +78,7 @@ impl Prop for C16 {
         vec![("rebuild", 0.5), ("reopen", 0.3), ("two-rebuilds", 0.1)]
     }
     fn release_fraction(&self, tier: Tier) -> f64 {
-        tier.pick(0.3, 0.5)
+        tier.pick(0.3, 0.1)
     }
     fn max_shrink_iters(&self) -> u32 {
         400
